@@ -7,6 +7,7 @@ import (
 	"os/exec"
 	"os/user"
 	"strconv"
+	"sync"
 	"syscall"
 
 	"github.com/creack/pty"
@@ -42,7 +43,9 @@ type hopSession struct {
 	// We use a channel (with size 1) to avoid reading window sizes before we've created the pty
 	pty chan *os.File
 
-	usingAuthGrant    bool // true if client authenticated with authgrant
+	usingAuthGrant bool // true if client authenticated with authgrant
+	// actionsLock guards authorizedActions: every request is checked in its own goroutine
+	actionsLock       sync.Mutex
 	authorizedActions []authgrants.Authgrant
 
 	forward portforwarding.Forward
@@ -116,7 +119,10 @@ func (sess *hopSession) start() {
 		if r, ok := tube.(*tubes.Reliable); ok {
 			switch tube.Type() {
 			case common.ExecTube:
-				if len(sess.authorizedActions) == 1 && sess.authorizedActions[0].GrantType == authgrants.Acme {
+				sess.actionsLock.Lock()
+				onlyAcme := len(sess.authorizedActions) == 1 && sess.authorizedActions[0].GrantType == authgrants.Acme
+				sess.actionsLock.Unlock()
+				if onlyAcme {
 					// TODO Do Acme Stuff
 				} else {
 					t2, err := sess.tubeMuxer.Accept()
